@@ -76,7 +76,7 @@ def check_sift(ctx, case):
     x, io, eo, xo = case['x'], case['imf_opts'], case['envelope_opts'], case['extrema_opts']
     kw = dict(imf_opts=io, envelope_opts=eo, extrema_opts=xo)
     base = S.sift(x.copy(), **kw)
-    if x.dtype.kind == 'i':
+    if x.dtype.kind in 'iu':
         if not int_vs_float(ctx, 'sift', x, base, lambda v: S.sift(v, **kw), case):
             return
         x = x.astype(float)
@@ -161,7 +161,7 @@ def check_mask(ctx, case):
             ctx.violation('first-mask-frequency:' + mk['mask_freqs'], 'the first mask frequency %.6g is not the estimate %.6g obtained from the first IMF '
                           'extracted with the supplied options (the layer is then not the documented masked extraction)' % (freqs[0], z0), case)
             return
-    if x.dtype.kind == 'i':
+    if x.dtype.kind in 'iu':
         if not int_vs_float(ctx, 'mask_sift', x, base, lambda v: S.mask_sift(v, max_imfs=12, **kw), case):
             return
         x = x.astype(float)
